@@ -232,6 +232,14 @@ pub fn run(run: &mut Run) {
     );
     // a valid term decodes to its value whatever the same thread was made to decode (and reject) before
     run.prop("valid-after-rejected", after_strategy, run.tier.pick(3_000, 100_000), after_oracle);
+    if run.tier == crate::engine::Tier::Thorough {
+        // coverage-guided byte fuzzing of the same oracle (libFuzzer, structure-aware through fuzzde); see fuzzbridge.rs
+        crate::fuzzbridge::campaign(run, "c03", 3_000_000, 400);
+    }
+    if run.tier == crate::engine::Tier::Thorough {
+        // coverage-guided byte fuzzing of the same oracle (libFuzzer, structure-aware through fuzzde); see fuzzbridge.rs
+        crate::fuzzbridge::campaign(run, "decode", 3_000_000, 400);
+    }
 }
 
 
@@ -339,7 +347,7 @@ pub fn after_strategy() -> impl Strategy<Value = AfterCase> {
 }
 
 pub fn replays() -> Vec<ReplayEntry> {
-    vec![
+    vec![replay_entry("fuzz:c03", crate::fuzzbridge::eval_input), replay_entry("fuzz:decode", crate::fuzzbridge::eval_input), 
         replay_entry("scalars-all-forms", oracle),
         replay_entry("trees-all-forms", oracle),
         replay_entry("trees-eq-num-keys", oracle),
